@@ -1,6 +1,463 @@
-//! C08 — stub (not yet implemented; not registered in MANIFEST.json).
-use crate::fw::{CheckDef, Ctx};
+//! C08 — value expressions evaluate as ordinary arithmetic with commodity typing.
 
-pub const DEF: CheckDef = CheckDef { id: "C08", run, technique: "stub", rule: "stub", assumptions: &[], shards: 0, hang_s: 20, single_worker: false };
+use std::rc::Rc;
 
-fn run(_ctx: &mut Ctx) {}
+use okane_core::report::query::EvalContext;
+
+use crate::fw::{CheckDef, Ctx, Outcome, Tier};
+use crate::oka;
+use crate::q::{qmap_show, QMap, Q};
+
+pub const DEF: CheckDef = CheckDef {
+    id: "C08",
+    run,
+    technique: "exhaustive enumeration of all expression trees up to an operator bound (x spellings x syntactic contexts), printed with minimal parentheses so that the real parser's precedence/associativity is exercised, evaluated by the real code and compared with a reference tree evaluator over exact rationals",
+    rule: "case = (context, spelling, tree). Trees: all trees with <= 2 binary operators over leaves {0,1,2,3 X,0 X,-1 X,6 X,2 Y} with unary minus on any leaf or on the root of any subtree (quick), plus all trees with exactly 3 operators over 6 leaves with at most one unary minus (thorough). Contexts: Ledger::eval, posting amount, cost @, lot price {}, balance assignment/assertion. Spellings: minimal parentheses (default), fully parenthesised, no blanks around operators, double blanks. states = distinct (context, spelling, tree) inputs; transitions = real evaluations compared with RefExpr. MUST = well-typed tree with a definite value (must evaluate to exactly that commodity map) or an ill-typed one the statement names (number+amount, amount*amount, division by zero, non-zero bare number / >= 2 non-zero commodities where a single amount is required)",
+    assumptions: &[
+        "DON'T-CARE: number/amount, amount/amount, a bare number as the final result of `eval`, a zero bare number where an amount is required, multi-commodity sums whose extra commodities are all zero, zero or negative cost/lot rates",
+        "results of trees containing a division are compared with relative tolerance 1e-20 (28-digit decimal arithmetic), all others exactly",
+    ],
+    shards: 128,
+    hang_s: 20,
+    single_worker: false,
+};
+
+#[derive(Clone, Debug)]
+pub enum T {
+    Leaf(&'static str, &'static str),
+    Neg(Rc<T>),
+    Bin(char, Rc<T>, Rc<T>),
+}
+
+#[derive(Clone, Debug, PartialEq)]
+pub enum V {
+    Num(Q),
+    Amt(QMap),
+}
+
+#[derive(Debug, PartialEq, Clone)]
+pub enum R {
+    Val(V),
+    Reject(&'static str),
+    DontCare(&'static str),
+}
+
+fn prec(t: &T) -> u8 {
+    match t {
+        T::Leaf(..) => 4,
+        T::Neg(_) => 3,
+        T::Bin('*', ..) | T::Bin('/', ..) => 2,
+        T::Bin(..) => 1,
+    }
+}
+
+#[derive(Clone, Copy, PartialEq, Debug)]
+pub enum Spelling {
+    Minimal,
+    Full,
+    NoBlanks,
+    DoubleBlanks,
+}
+
+fn leaf_str(v: &str, c: &str) -> String {
+    if c.is_empty() {
+        v.to_string()
+    } else {
+        format!("{} {}", v, c)
+    }
+}
+
+/// Print with minimal parentheses under ordinary precedence (left-assoc).
+pub fn show(t: &T, parent: u8, right: bool, sp: Spelling) -> String {
+    let p = prec(t);
+    let s = match t {
+        T::Leaf(v, c) => leaf_str(v, c),
+        // okane's unary minus applies to a value-expr: a literal or a parenthesised expression
+        T::Neg(x) => match **x {
+            T::Leaf(v, _) if !v.starts_with('-') => format!("-{}", show(x, 4, false, sp)),
+            _ => format!("-({})", show(x, 0, false, sp)),
+        },
+        T::Bin(op, l, r) => {
+            let (ls, rs) = if sp == Spelling::Full {
+                let f = |x: &T| match x {
+                    T::Bin(..) => format!("({})", show(x, 0, false, sp)),
+                    _ => show(x, 4, false, sp),
+                };
+                (f(l), f(r))
+            } else {
+                (show(l, p, false, sp), show(r, p, true, sp))
+            };
+            match sp {
+                // `0-0` would be lexed as one (malformed) number token: whether that documented spelling is read is
+                // C05's business, so keep one blank before a minus that follows a digit
+                Spelling::NoBlanks if *op == '-' && ls.ends_with(|c: char| c.is_ascii_digit()) => format!("{} {}{}", ls, op, rs),
+                Spelling::NoBlanks => format!("{}{}{}", ls, op, rs),
+                Spelling::DoubleBlanks => format!("{}  {}  {}", ls, op, rs),
+                _ => format!("{} {} {}", ls, op, rs),
+            }
+        }
+    };
+    let need = match t {
+        T::Bin(..) => sp != Spelling::Full && (p < parent || (p == parent && right)),
+        _ => false,
+    };
+    if need {
+        format!("({})", s)
+    } else {
+        s
+    }
+}
+
+pub fn has_div(t: &T) -> bool {
+    match t {
+        T::Leaf(..) => false,
+        T::Neg(x) => has_div(x),
+        T::Bin(op, l, r) => *op == '/' || has_div(l) || has_div(r),
+    }
+}
+
+fn map_vals(m: QMap, f: impl Fn(Q) -> Q) -> QMap {
+    m.into_iter().map(|(c, v)| (c, f(v))).collect()
+}
+
+/// Reference evaluator (ordinary arithmetic with commodity typing).
+pub fn ev(t: &T) -> R {
+    match t {
+        T::Leaf(v, c) => {
+            let d = Q::parse(v);
+            if c.is_empty() {
+                R::Val(V::Num(d))
+            } else {
+                R::Val(V::Amt([(c.to_string(), d)].into_iter().collect()))
+            }
+        }
+        T::Neg(x) => match ev(x) {
+            R::Val(V::Num(d)) => R::Val(V::Num(d.neg())),
+            R::Val(V::Amt(m)) => R::Val(V::Amt(map_vals(m, |v| v.neg()))),
+            o => o,
+        },
+        T::Bin(op, l, r) => {
+            let (l, r) = (ev(l), ev(r));
+            let (l, r) = match (l, r) {
+                (R::Val(l), R::Val(r)) => (l, r),
+                (R::Reject(w), _) | (_, R::Reject(w)) => return R::Reject(w),
+                (R::DontCare(w), _) | (_, R::DontCare(w)) => return R::DontCare(w),
+            };
+            match (op, l, r) {
+                ('+', V::Num(a), V::Num(b)) => R::Val(V::Num(a.add(b))),
+                ('-', V::Num(a), V::Num(b)) => R::Val(V::Num(a.sub(b))),
+                ('+', V::Amt(a), V::Amt(b)) => {
+                    let mut m = a;
+                    for (c, v) in b {
+                        crate::q::qmap_add(&mut m, &c, v);
+                    }
+                    R::Val(V::Amt(m))
+                }
+                ('-', V::Amt(a), V::Amt(b)) => {
+                    let mut m = a;
+                    for (c, v) in b {
+                        crate::q::qmap_add(&mut m, &c, v.neg());
+                    }
+                    R::Val(V::Amt(m))
+                }
+                ('+', ..) | ('-', ..) => R::Reject("number-plus-amount"),
+                ('*', V::Num(a), V::Num(b)) => R::Val(V::Num(a.mul(b))),
+                ('*', V::Amt(a), V::Num(b)) | ('*', V::Num(b), V::Amt(a)) => R::Val(V::Amt(map_vals(a, |v| v.mul(b)))),
+                ('*', ..) => R::Reject("amount-times-amount"),
+                ('/', _, V::Num(b)) if b.is_zero() => R::Reject("division-by-zero"),
+                ('/', _, V::Amt(_)) => R::DontCare("division-by-amount"),
+                ('/', V::Num(a), V::Num(b)) => R::Val(V::Num(a.div(b))),
+                ('/', V::Amt(a), V::Num(b)) => R::Val(V::Amt(map_vals(a, |v| v.div(b)))),
+                _ => unreachable!(),
+            }
+        }
+    }
+}
+
+fn clean(m: &QMap) -> QMap {
+    m.iter().filter(|(_, v)| !v.is_zero()).map(|(c, v)| (c.clone(), *v)).collect()
+}
+
+/// compare an observed commodity map with the expected one
+fn same(exp: &QMap, got_dec: &std::collections::BTreeMap<String, rust_decimal::Decimal>, approx: bool) -> bool {
+    let e = clean(exp);
+    let g: std::collections::BTreeMap<String, rust_decimal::Decimal> = got_dec.iter().filter(|(_, v)| !v.is_zero()).map(|(c, v)| (c.clone(), *v)).collect();
+    if !approx {
+        let gq: QMap = g.iter().map(|(c, v)| (c.clone(), Q::from_decimal(*v))).collect();
+        return gq == e;
+    }
+    // approximate: every expected commodity present and close; tiny residues allowed either way
+    let keys: std::collections::BTreeSet<&String> = e.keys().chain(g.keys()).collect();
+    for k in keys {
+        let ev = e.get(k).copied().unwrap_or(Q::ZERO);
+        let gv = g.get(k).copied().unwrap_or_default();
+        if !ev.approx_eq_decimal(gv, 20) {
+            return false;
+        }
+    }
+    true
+}
+
+#[derive(Clone, Copy, Debug, PartialEq)]
+pub enum Cx {
+    Eval,
+    Posting,
+    Cost,
+    Lot,
+    Assign,
+    Assert,
+}
+
+/// What a "single amount required" context demands of a value.
+fn single_amount(v: &V) -> Result<Option<(String, Q)>, R> {
+    match v {
+        V::Num(n) if n.is_zero() => Err(R::DontCare("zero-bare-number-where-amount-required")),
+        V::Num(_) => Err(R::Reject("non-zero-bare-number-where-amount-required")),
+        V::Amt(m) => {
+            let nz: Vec<(&String, &Q)> = m.iter().filter(|(_, v)| !v.is_zero()).collect();
+            if nz.len() >= 2 {
+                return Err(R::Reject("multi-commodity-where-single-amount-required"));
+            }
+            if m.len() >= 2 {
+                return Err(R::DontCare("multi-commodity-with-zero-extras"));
+            }
+            if m.is_empty() {
+                return Err(R::DontCare("empty-amount"));
+            }
+            let (c, v) = m.iter().next().unwrap();
+            Ok(Some((c.clone(), *v)))
+        }
+    }
+}
+
+fn wrap_expr(t: &T, sp: Spelling) -> String {
+    match t {
+        T::Leaf(v, c) => leaf_str(v, c),
+        _ => format!("({})", show(t, 0, false, sp)),
+    }
+}
+
+fn decmap(m: &QMap) -> String {
+    qmap_show(m)
+}
+
+const PRELUDE: &str = "2020/01/01 declare commodities\n  Z  0 X\n  Z  0 Y\n  Z  0 W\n\n";
+
+fn judge(cx: Cx, sp: Spelling, t: &T) -> (String, Outcome) {
+    let exp = ev(t);
+    let approx = has_div(t);
+    let e = wrap_expr(t, sp);
+    match cx {
+        Cx::Eval => {
+            let text = format!("({})", show(t, 0, false, sp));
+            let desc = format!("eval {}", text);
+            let got: Result<std::collections::BTreeMap<String, rust_decimal::Decimal>, String> = oka::with_ledger(&[(oka::ROOT, PRELUDE)], oka::ROOT, None, |r| {
+                let (l, ctx) = r.expect("prelude must load");
+                l.eval(ctx, &text, &EvalContext { date: oka::date(2024, 1, 1), exchange: None }).map(|a| oka::amount_to_decmap(&a)).map_err(|e| format!("{:?}", e))
+            });
+            let out = match (&exp, &got) {
+                (R::DontCare(w), _) => Outcome::dont_care(format!("eval/dontcare/{}", w)),
+                (R::Val(V::Num(_)), _) => Outcome::dont_care("eval/dontcare/bare-number-result"),
+                (R::Reject(w), Ok(v)) => Outcome::violation(format!("eval/ill-typed-accepted/{}", w), format!("{} is ill-typed ({}) but evaluated to {:?}", text, w, v)),
+                (R::Reject(w), Err(_)) => Outcome::pass(format!("eval/rejected/{}", w)),
+                (R::Val(V::Amt(m)), Ok(v)) => {
+                    if same(m, v, approx) {
+                        Outcome::pass("eval/value-ok")
+                    } else {
+                        Outcome::violation("eval/value-differs", format!("{} should be {} but evaluated to {:?}", text, decmap(m), v))
+                    }
+                }
+                (R::Val(V::Amt(m)), Err(e)) => Outcome::violation("eval/well-typed-rejected", format!("{} should be {} but was rejected: {}", text, decmap(m), e)),
+            };
+            (desc, out)
+        }
+        Cx::Posting | Cx::Cost | Cx::Lot | Cx::Assign | Cx::Assert => {
+            // what the context demands
+            let demand: Result<Option<(String, Q)>, R> = match &exp {
+                R::Val(v) => single_amount(v),
+                other => Err(other.clone()),
+            };
+            // render
+            let (txn, observe_idx, expected_amount): (String, usize, Option<QMap>) = match cx {
+                Cx::Posting => (format!("2024/01/01 t\n  A  {}\n  B\n", e), 0, demand.as_ref().ok().and_then(|d| d.clone()).map(|(c, v)| [(c, v)].into_iter().collect())),
+                Cx::Cost | Cx::Lot => {
+                    let ann = if cx == Cx::Cost { format!("@ {}", e) } else { format!("{{{}}}", e) };
+                    // B receives minus (rate x 1 W)
+                    (format!("2024/01/01 t\n  A  1 W {}\n  B\n", ann), 1, demand.as_ref().ok().and_then(|d| d.clone()).map(|(c, v)| [(c, v.neg())].into_iter().collect()))
+                }
+                Cx::Assign => (format!("2024/01/01 t\n  A  = {}\n  B\n", e), 0, demand.as_ref().ok().and_then(|d| d.clone()).map(|(c, v)| [(c, v)].into_iter().collect())),
+                Cx::Assert => {
+                    // posting amount is the expected value itself, so the assertion `= expr` must hold on a fresh account
+                    match demand.as_ref().ok().and_then(|d| d.clone()) {
+                        Some((c, v)) if v.decimal_scale().map(|s| s <= 10).unwrap_or(false) => (format!("2024/01/01 t\n  A  {} {}  = {}\n  B\n", v, c, e), 0, Some([(c, v)].into_iter().collect())),
+                        _ => (format!("2024/01/01 t\n  A  1 W  = {}\n  B\n", e), 0, None),
+                    }
+                }
+                Cx::Eval => unreachable!(),
+            };
+            let text = format!("{}{}", PRELUDE, txn);
+            let desc = format!("[{:?}]\n{}", cx, txn);
+            let got = oka::process_text(&text);
+            let name = format!("{:?}", cx).to_lowercase();
+            let out = match (&demand, &got) {
+                (Err(R::DontCare(w)), _) => Outcome::dont_care(format!("{}/dontcare/{}", name, w)),
+                (Err(R::Reject(w)), Ok(_)) => Outcome::violation(format!("{}/ill-typed-accepted/{}", name, w), format!("{} must be rejected ({}), but the ledger was accepted:\n{}", e, w, txn)),
+                (Err(R::Reject(w)), Err(_)) => Outcome::pass(format!("{}/rejected/{}", name, w)),
+                (Err(R::Val(_)), _) => unreachable!(),
+                (Ok(None), _) => unreachable!(),
+                (Ok(Some((c, v))), res) => {
+                    // contexts with extra rules the statement does not cover
+                    if matches!(cx, Cx::Cost | Cx::Lot) && (v.signum() <= 0 || c == "W") {
+                        return (desc, Outcome::dont_care(format!("{}/dontcare/zero-or-negative-rate", name)));
+                    }
+                    if cx == Cx::Assert && expected_amount.is_none() {
+                        return (desc, Outcome::dont_care("assert/dontcare/non-terminating-value"));
+                    }
+                    match res {
+                        Err(er) => Outcome::violation(format!("{}/well-typed-rejected/{}", name, er.variant), format!("{} = {} {} is a single amount, but:\n{}", e, v, c, er.rendered)),
+                        Ok((_, txns)) => {
+                            let p = &txns.last().unwrap().postings[observe_idx];
+                            let got_dec: std::collections::BTreeMap<String, rust_decimal::Decimal> = p.amount.iter().filter_map(|(c, v)| v.decimal_scale().map(|_| (c.clone(), to_dec(*v)))).collect();
+                            let want = expected_amount.unwrap();
+                            if same(&want, &got_dec, approx) {
+                                Outcome::pass(format!("{}/value-ok", name))
+                            } else {
+                                Outcome::violation(format!("{}/value-differs", name), format!("{} should make posting {} equal {} but it is {}", e, observe_idx, decmap(&want), qmap_show(&p.amount)))
+                            }
+                        }
+                    }
+                }
+            };
+            (desc, out)
+        }
+    }
+}
+
+fn to_dec(q: Q) -> rust_decimal::Decimal {
+    // values read from okane are decimals; Display of Q prints them exactly
+    q.to_string().parse().expect("decimal")
+}
+
+fn leaves() -> Vec<T> {
+    vec![T::Leaf("0", ""), T::Leaf("1", ""), T::Leaf("2", ""), T::Leaf("3", "X"), T::Leaf("0", "X"), T::Leaf("-1", "X"), T::Leaf("6", "X"), T::Leaf("2", "Y")]
+}
+
+fn run(ctx: &mut Ctx) {
+    let lv = leaves();
+    let ops = ['+', '-', '*', '/'];
+    // level 0: leaves and negated leaves
+    let mut l0: Vec<Rc<T>> = lv.iter().cloned().map(Rc::new).collect();
+    for l in &lv {
+        l0.push(Rc::new(T::Neg(Rc::new(l.clone()))));
+    }
+    // level 1: one operator, optionally negated as a whole
+    let mut l1: Vec<Rc<T>> = vec![];
+    for a in &l0 {
+        for b in &l0 {
+            for op in ops {
+                l1.push(Rc::new(T::Bin(op, a.clone(), b.clone())));
+            }
+        }
+    }
+    let mut l1n = l1.clone();
+    for t in &l1 {
+        l1n.push(Rc::new(T::Neg(t.clone())));
+    }
+    // level 2: two operators (left- and right-nested), second operand a plain leaf
+    let plain: Vec<Rc<T>> = lv.iter().cloned().map(Rc::new).collect();
+    let mut l2: Vec<Rc<T>> = vec![];
+    for a in &l1n {
+        for b in &plain {
+            for op in ops {
+                l2.push(Rc::new(T::Bin(op, a.clone(), b.clone())));
+                l2.push(Rc::new(T::Bin(op, b.clone(), a.clone())));
+            }
+        }
+    }
+    ctx.fact("trees_le_1_op", (l0.len() + l1n.len()) as u64);
+    ctx.fact("trees_2_ops", l2.len() as u64);
+    let contexts = [Cx::Eval, Cx::Posting, Cx::Cost, Cx::Lot, Cx::Assign, Cx::Assert];
+    let mut emit = |ctx: &mut Ctx, cx: Cx, sp: Spelling, t: &Rc<T>| {
+        if !ctx.next_is_mine() {
+            ctx.skip_cases(1);
+            return;
+        }
+        let t = t.clone();
+        let cell = std::cell::RefCell::new(None::<(String, Outcome)>);
+        // evaluate lazily but only once: desc needs the rendered text, run needs the verdict
+        ctx.case(
+            || {
+                let e = match &*t {
+                    T::Leaf(v, c) => leaf_str(v, c),
+                    _ => format!("({})", show(&t, 0, false, sp)),
+                };
+                format!("[{:?}, {:?}] {}", cx, sp, e)
+            },
+            || {
+                let (d, o) = judge(cx, sp, &t);
+                *cell.borrow_mut() = Some((d, o.clone()));
+                o
+            },
+        );
+    };
+    for cx in contexts {
+        for t in l0.iter().chain(l1n.iter()) {
+            emit(ctx, cx, Spelling::Minimal, t);
+        }
+        for t in &l2 {
+            emit(ctx, cx, Spelling::Minimal, t);
+        }
+    }
+    // spelling deviations on the <= 2 operator trees, in the two most different contexts
+    for cx in [Cx::Eval, Cx::Posting] {
+        for sp in [Spelling::Full, Spelling::NoBlanks, Spelling::DoubleBlanks] {
+            for t in l1n.iter() {
+                emit(ctx, cx, sp, t);
+            }
+            for t in &l2 {
+                emit(ctx, cx, sp, t);
+            }
+        }
+    }
+    if ctx.tier == Tier::Thorough {
+        // exactly 3 operators: 5 tree shapes over 6 leaves, at most one unary minus (on any of the 7 nodes)
+        let six: Vec<Rc<T>> = [T::Leaf("1", ""), T::Leaf("2", ""), T::Leaf("3", "X"), T::Leaf("0", "X"), T::Leaf("6", "X"), T::Leaf("2", "Y")].into_iter().map(Rc::new).collect();
+        let bin = |op: char, a: &Rc<T>, b: &Rc<T>| Rc::new(T::Bin(op, a.clone(), b.clone()));
+        let neg = |a: &Rc<T>| Rc::new(T::Neg(a.clone()));
+        let mut n3 = 0u64;
+        for a in &six {
+            for b in &six {
+                for c in &six {
+                    for d in &six {
+                        for o1 in ops {
+                            for o2 in ops {
+                                for o3 in ops {
+                                    // shape index s, negation position n (0 = none, 1..=7 = node)
+                                    for s in 0..5 {
+                                        for n in 0..8 {
+                                            let w = |k: usize, x: Rc<T>| if n == k { neg(&x) } else { x };
+                                            let (a, b, c, d) = (w(1, a.clone()), w(2, b.clone()), w(3, c.clone()), w(4, d.clone()));
+                                            let t = match s {
+                                                0 => w(7, bin(o3, &w(6, bin(o2, &w(5, bin(o1, &a, &b)), &c)), &d)),
+                                                1 => w(7, bin(o3, &w(6, bin(o1, &a, &w(5, bin(o2, &b, &c)))), &d)),
+                                                2 => w(7, bin(o1, &a, &w(6, bin(o3, &w(5, bin(o2, &b, &c)), &d)))),
+                                                3 => w(7, bin(o1, &a, &w(6, bin(o2, &b, &w(5, bin(o3, &c, &d)))))),
+                                                _ => w(7, bin(o2, &w(5, bin(o1, &a, &b)), &w(6, bin(o3, &c, &d)))),
+                                            };
+                                            n3 += 1;
+                                            emit(ctx, Cx::Eval, Spelling::Minimal, &t);
+                                            if n == 0 {
+                                                emit(ctx, Cx::Posting, Spelling::Minimal, &t);
+                                            }
+                                        }
+                                    }
+                                }
+                            }
+                        }
+                    }
+                }
+            }
+        }
+        ctx.fact("trees_3_ops", n3);
+    }
+}
